@@ -352,6 +352,18 @@ func (g *gen) progCalls() ([]byte, []byte, []byte) {
 	// put some bytes in memory as call input
 	a.push(lattice(r)).pushU(0).op(0x52)
 	a.push(lattice(r)).pushU(32).op(0x52)
+	if r.Chance(1, 6) {
+		// a MODEXP header with boundary length words, then a call to 0x05 with all the gas
+		for w := 0; w < 3; w++ {
+			a.push(lenWord(r)).pushU(uint64(32 * w)).op(0x52)
+		}
+		a.pushU(uint64(r.Intn(70))).pushU(uint64(r.Intn(100))).pushU(uint64(96 + r.Intn(70))).pushU(0)
+		kind := []byte{0xf1, 0xf2, 0xf4, 0xfa}[r.Intn(4)]
+		if kind == 0xf1 || kind == 0xf2 {
+			a.pushU(0)
+		}
+		a.pushU(5).op(0x5a).op(kind)
+	}
 	nCalls := 1 + r.Intn(3)
 	for c := 0; c < nCalls; c++ {
 		kind := []byte{0xf1, 0xf2, 0xf4, 0xfa}[r.Intn(4)]
